@@ -29,6 +29,14 @@ def main():
         seed = int(os.environ.get("VERIF_SEED", "0"))
     except ValueError:
         seed = 0
+    recorded = None
+    if replay:
+        # every stream draws from one generator seeded by (property, seed): re-running the check with the seed and tier of the
+        # replay file regenerates the recorded case exactly; the verdict is the check's, and the recorded case is looked up in it
+        payload = json.load(open(replay))
+        recorded = payload.get("violation") or (payload.get("correspondence_disagreements") or [None])[0]
+        seed = int(payload.get("seed", seed))
+        tier = payload.get("tier", tier)
     t0 = time.time()
     build = common.ensure_build(prop, thorough=(tier == "thorough"))
     if not build.ok:
@@ -42,15 +50,19 @@ def main():
     ctx = common.Ctx(prop, tier, seed)
     res = common.Result(prop)
     try:
-        if replay:
-            payload = json.load(open(replay))
-            case = payload.get("violation") or (payload.get("correspondence_disagreements") or [None])[0]
-            if case is None or not hasattr(mod, "replay"):
-                print("nothing replayable in", replay)
-                return 2
-            mod.replay(ctx, res, case)
+        if replay and recorded is not None and hasattr(mod, "replay"):
+            mod.replay(ctx, res, recorded)
         else:
             mod.run(ctx, res)
+            if replay:
+                def norm(x):
+                    return json.dumps(x, sort_keys=True, default=str)
+                if recorded is None:
+                    print("REPLAY: the file records no failing case (a proof obligation or the translation no longer checks): see no_longer_checks in it")
+                else:
+                    want = norm(recorded.get("case"))
+                    hit = any(norm(v["case"]) == want for v in res.violations) or any(d and norm(d["case"]) == want for d in res.disagreements)
+                    print("REPLAY: the recorded case", "fails again" if hit else "no longer fails", "on this tree")
     except Exception:
         traceback.print_exc()
         print("INFRASTRUCTURE ERROR: harness crashed", file=sys.stderr)
